@@ -45,7 +45,7 @@ def run(ctx):
         for a in alts(rp.ret_value(rb)):
             if isinstance(a, tuple) and a[0] == 'agg' and a[1].endswith('Option::Some'):
                 vals.append(peel(a[2][0], unwraps=False))
-    ok = len(vals) == 1 and is_call(vals[0], r'to_vec$') and peel(vals[0][2][0]) == ('bytes', b'SSH-2.0-1\r\n'.hex(), peel(vals[0][2][0])[2] if isinstance(peel(vals[0][2][0]), tuple) and len(peel(vals[0][2][0])) > 2 else '')
+    ok = len(vals) == 1 and is_call(vals[0], r'to_vec$') and isinstance(peel(vals[0][2][0]), tuple) and peel(vals[0][2][0])[:2] == ('bytes', b'SSH-2.0-1\r\n'.hex())
     rep.check(r1, ok, 'reply-constant', 'reply bytes: %s' % [short(v) for v in vals])
     pc = rp.calls(r'^proto::ssh::ssh_parse$')
     ok = len(pc) == 1 and peel(rp.argv(pc[0][0], 1)) == ('param', 1)
